@@ -1,5 +1,5 @@
 """Data for MANIFEST.json (bin/mkmanifest)."""
-HOOK_COMMITS = ["9ae5561", "4ea2e60", "1c8a90d"]
+HOOK_COMMITS = ["ed34141", "9ae5561", "4ea2e60", "1c8a90d"]
 NOTES = ("Machine-checked proof in Coq 8.16 over executable Gallina models of the back-end logic; each model is tied to /repo on every run "
          "by a correspondence run (extracted OCaml model vs the Go code on generated inputs) and/or by facts regenerated from the source "
          "(translator -> coq/gen). Oracles (math/big, encoding/*, x/net/html, node, strace) only search for failing inputs. "
@@ -28,7 +28,21 @@ ENGINES.append({"name": "JsRename", "path": "coq/theories/Js/Rename*.v + coq/gen
      "kind_free_text": "F1 Gallina model of getName/isReserved/renameScope and of whole-program renaming over the parser's scope forest; lexical resolver as specification; alphabets regenerated from source; harness/cmd/jsoracle (forest dump through the verif hook, node vm oracle)"})
 ENGINES.append({"name": "Conc", "path": "coq/theories/Conc + coq/gen/SharedWrites_gen.v", "serves_properties": ["C13"],
      "kind_free_text": "Gallina model of N goroutines over read-only shared state and of the writer-preferring RWMutex; shared-write facts regenerated from source; harness/cmd/conccheck built with -race"})
+ENGINES.append({"name": "SvgPath", "path": "coq/theories/Svg", "serves_properties": ["C05", "C09"],
+     "kind_free_text": "F1 Gallina model of the path-data separator logic (copyNumber/copyFlag) + SVG number grammar lexer as specification; harness/cmd/svgoracle (hooked separator correspondence, independent path interpreter, encoding/xml tree oracle)"})
 CHECKS = {
+    "C05": {
+        "engine": "SvgPath", "design_ref": "DESIGN.md section 4 / C05",
+        "technique": "Coq proof (maximal-munch lexer inverts the separator state machine, all item sequences) + hooked correspondence; geometry and document structure by search (independent interpreters)",
+        "text": ("Theorems (Props/C05.v), for item sequences of any length and every consistent printer state: lexing the emitted path data by the SVG 1.1 number "
+                 "grammar with maximal munch (flags as single characters) returns exactly the written lexemes — numbers and flags never fuse; every written "
+                 "lexeme is the coordinate, its e2 spelling or .0 for 0; the 00->e2 rewrite hits plain integers only; the hypothesis on coordinates is "
+                 "necessary (-00 refuted) and is measured on every coordinate minify.Number returns. Tie: the real copyNumber/copyFlag (verif hook) and the "
+                 "extracted model write the same 6,000 random item sequences. PARTIAL: geometry (float64 conversion, command merging), lengths/viewBox/colours and "
+                 "document structure are decided by search only: 30,000 generated paths/documents per quick run through an independent SVG 1.1 path interpreter "
+                 "(tolerance 1e-9) and an encoding/xml tree walk with typed attribute comparison; 12 open findings there (K25, K26, K43, K44, K63-K71)."),
+        "note": ("Partial (proof covers the separator state machine only). Trusted: Coq kernel, extraction, driver, hook, the oracle's interpreters."),
+    },
     "C13": {
         "engine": "Conc", "design_ref": "DESIGN.md section 4 / C13",
         "technique": "Coq proof over all schedules (interleaving independence, lock protocol) on frame facts regenerated from source + race-detector harness as search",
